@@ -549,6 +549,20 @@ func extractElgEd25519Keys(data []byte, pubKeySize, paddingSize, sigKeySize int)
 	return
 }
 
+// validateCertificateKeySizes checks that the key certificate found by one of the
+// fixed-layout readers declares keys of the sizes that reader assumed when it cut the
+// 384-byte block. Without it a certificate declaring other key types is accepted and the
+// returned KeysAndCert neither validates nor serializes back to the bytes it was read from.
+func validateCertificateKeySizes(keyCert *key_certificate.KeyCertificate, pubKeySize, sigKeySize int) error {
+	if keyCert.CryptoSize() != pubKeySize || keyCert.SigningPublicKeySize() != sigKeySize {
+		return oops.Errorf(
+			"key certificate declares key types (signing %d, crypto %d) that do not match the %d-byte crypto key and %d-byte signing key layout of this reader",
+			keyCert.SigningPublicKeyType(), keyCert.PublicKeyType(), pubKeySize, sigKeySize,
+		)
+	}
+	return nil
+}
+
 // logElgEd25519Success logs successful parsing of ElGamal/Ed25519 KeysAndCert.
 func logElgEd25519Success(paddingLen, remainderLen int) {
 	log.WithFields(logger.Fields{
@@ -578,6 +592,9 @@ func ReadKeysAndCertElgAndEd25519(data []byte) (keysAndCert *KeysAndCert, remain
 	keysAndCert.KeyCertificate, remainder, err = extractKeyCertificate(data, totalKeySize)
 	if err != nil {
 		return
+	}
+	if err = validateCertificateKeySizes(keysAndCert.KeyCertificate, pubKeySize, sigKeySize); err != nil {
+		return nil, remainder, err
 	}
 
 	logElgEd25519Success(len(keysAndCert.Padding), len(remainder))
@@ -689,6 +706,9 @@ func ReadKeysAndCertX25519AndEd25519(data []byte) (keysAndCert *KeysAndCert, rem
 	keysAndCert.KeyCertificate, remainder, err = extractKeyCertificate(data, totalKeySize)
 	if err != nil {
 		return
+	}
+	if err = validateCertificateKeySizes(keysAndCert.KeyCertificate, pubKeySize, sigKeySize); err != nil {
+		return nil, remainder, err
 	}
 
 	log.WithFields(logger.Fields{
